@@ -435,6 +435,16 @@ func c04Targets() []c04Target {
 		Fields: []c04Field{lenField(1), {"header flags", h + 11, 4}, {"header extension length", h + 15, 4},
 			{"tuple 1 field count", h + 19, 2}, {"tuple 1 field 1 length", h + 21, 4}, {"tuple 1 field 2 length", h + 29, 4},
 			{"tuple 2 field count", h + 38, 2}, {"tuple 2 field 1 length (NULL)", h + 40, 4}, {"tuple 2 field 2 length", h + 44, 4}, {"trailer", h + 48, 2}}})
+	// a tuple that carries one well-formed field more than the table has columns (and one fewer)
+	wide := pgproto.Cat(pgproto.BinaryCopyHeader(), pgproto.BinaryCopyTuple([][]byte{{0, 0, 0, 7}, []byte("seven"), []byte("x")}), pgproto.BinaryCopyTrailer())
+	narrow := pgproto.Cat(pgproto.BinaryCopyHeader(), pgproto.BinaryCopyTuple([][]byte{{0, 0, 0, 7}}), pgproto.BinaryCopyTrailer())
+	for _, v := range []struct {
+		n string
+		b []byte
+	}{{"CopyData (tuple with an extra field)", wide}, {"CopyData (tuple lacking a field)", narrow}} {
+		ts = append(ts, c04Target{Name: v.n, Before: [][]byte{start, pgproto.Query("copyb")}, Msg: pgproto.CopyData(v.b), After: [][]byte{pgproto.CopyDone(), pgproto.Query(progRows)}, Kind: "copy",
+			Fields: []c04Field{{"tuple 1 field count", h + 19, 2}}})
+	}
 	ts = append(ts, c04Target{Name: "CopyDone", Before: [][]byte{start, pgproto.Query("copyt"), pgproto.CopyData([]byte("x"))}, Msg: pgproto.CopyDone(), After: [][]byte{pgproto.Query(progRows)}, Kind: "copy",
 		Fields: []c04Field{lenField(1)}})
 	ts = append(ts, c04Target{Name: "CopyFail", Before: [][]byte{start, pgproto.Query("copyt")}, Msg: pgproto.CopyFail("why"), After: [][]byte{pgproto.Query(progRows)}, Kind: "copy",
@@ -504,7 +514,7 @@ func c04RunMutation(t c04Target, f c04Field, v uint64, cutToMatch bool) explore.
 	if len(o.params) > 2 {
 		res.Fail("fabricated-parameter", fmt.Sprintf("%s: a statement received %d parameters, the client sent 2", what, len(o.params)))
 	}
-	if t.Name == "CopyData (binary stream)" {
+	if strings.HasPrefix(t.Name, "CopyData (") {
 		// rows handed to the handler must be a prefix of what an independent decoder reads from the bytes actually sent
 		var sent []byte
 		if len(msg) > 5 {
